@@ -618,7 +618,7 @@ const (
 			tmp = append(tmp, data[next])
 			newMask = append(newMask, mask[next])
 			if len(tmp) == lastSize {
-				am := Arg{{$name}}Masked{{short .}}(tmp, mask)
+				am := Arg{{$name}}Masked{{short .}}(tmp, newMask)
 				indices = append(indices, am)
 
 				// reset
